@@ -112,7 +112,14 @@ impl ExprT {
     #[verifier::external_body]
     pub fn resolve_constant(&self, state: &TypeState) -> (r: Option<Value>)
         ensures r == self.spec_const(*state),
+                // an operand the compiler knows the constant of (a literal, or a variable bound to one) has exactly
+                // that constant's kind and cannot fail (store agreement, C12)
+                r is Some ==> self.spec_type(*state).m@ == set![value_member(r->Some_0)] && !self.spec_type(*state).fall@,
     { unimplemented!() }
+}
+pub uninterp spec fn other_member(o: Opaque) -> int;
+pub open spec fn value_member(v: Value) -> int {
+    match v { Value::Null => NULL, Value::Boolean(_) => BOOLEAN, Value::Integer(_) => INTEGER, Value::Float(_) => FLOAT, Value::Other(o) => other_member(o) }
 }
 #[derive(Clone, Copy)]
 pub enum Opcode { Mul, Div, Add, Sub, Or, And, Err, Ne, Eq, Ge, Gt, Le, Lt, Merge }
